@@ -134,6 +134,7 @@ def run_impl(case):
             # a key that is only watched is never read (a read would purge it once expired); what a read WOULD answer is taken from the raw store
             return [watched(k) if k in unprobed else bool(await cache.exists(k)) for k in keys]
         steps = []
+        incr_keys = {e[1] for _, e in case["events"] if e[0] == "incr"}
         await asyncio.sleep(TICK)
         for adv, e in case["events"]:
             if adv: await asyncio.sleep(adv * TICK)
@@ -144,7 +145,7 @@ def run_impl(case):
                 if op == "set":
                     _, k, v, ttl, tags, via = e
                     if via == "decor" and not await cache.exists(k):
-                        if t % 3 == 0:
+                        if t % 3 == 0 and k not in incr_keys:      # (a key that is incremented later must hold a number)
                             try:
                                 await fbx(k[2:], value=v, life=ttl * TICK)
                             except Boom:
